@@ -17,6 +17,16 @@ ASSUMPTIONS = ['I/O errors from the destination are not refusals (they may follo
 REFUSALS = {'DuplicateFilename', 'FilenameTooLong', 'WrongArchiveWriterState', 'WrongWriterState'}
 PURE_MUT = REF_PASSTHROUGH | {'get_mut', 'iter_mut', 'values_mut', 'as_mut', 'by_ref', 'get', 'contains_key', 'contains', 'is_empty', 'len', 'position', 'iter',
                               'keys', 'values', 'as_ref', 'deref', 'borrow', 'clone', 'fmt', 'to_string', 'eq', 'ne', 'hash', 'first', 'last', 'as_slice', 'finalize_reset_dummy'}
+# a map `entry()` is a lookup: nothing changes until the Entry it returns is consumed by insert / or_insert / remove .. (the Entry carries the
+# mutable borrow, so a call that takes it by value is an effect on the map)
+PURE_MUT = PURE_MUT | {'entry'}
+
+
+def is_entry(ty):
+    return ty.startswith(('std::collections::hash_map::Entry<', 'std::collections::hash_map::VacantEntry<', 'std::collections::hash_map::OccupiedEntry<',
+                          'std::collections::btree_map::Entry<', 'std::collections::btree_map::VacantEntry<', 'std::collections::btree_map::OccupiedEntry<'))
+
+
 TBL = os.path.join(os.path.dirname(os.path.dirname(os.path.dirname(os.path.abspath(__file__)))), 'tables', 'writer_dead_refusals.json')
 
 
@@ -42,7 +52,7 @@ def param_rooted(body):
                 elif rv.r in ('use', 'cast') and rv.ops[0].place is not None and rv.ops[0].place[0] in roots:
                     pl = rv.ops[0].place
                     # copying a reference (possibly out of an Option/tuple holding it) keeps the root
-                    if body.lty(d).startswith(('&', '*', 'std::option::Option<&', '(&')) or not pl[1]:
+                    if body.lty(d).startswith(('&', '*', 'std::option::Option<&', '(&')) or not pl[1] or is_entry(body.lty(d)):
                         src = pl[0]
                 if src is not None:
                     new = roots[src] - roots[d]
@@ -52,7 +62,7 @@ def param_rooted(body):
             t = b.term
             if t.kind == 'call' and t.dest is not None and not t.dest[1] and t.cmethod in PURE_MUT | {'as_mut', 'unwrap', 'expect', 'ok_or_else', 'ok_or', 'branch', 'map_err'}:
                 dty = body.lty(t.dest[0])
-                if '&mut' in dty or '*mut' in dty:
+                if '&mut' in dty or '*mut' in dty or is_entry(dty):
                     for a in t.args[:1]:
                         if a.place is not None and a.place[0] in roots:
                             new = roots[a.place[0]] - roots[t.dest[0]]
@@ -105,7 +115,7 @@ class Summaries:
                     continue
                 hit = set()
                 for a, aty in zip(t.args, t.arg_tys):
-                    if a.place is not None and a.place[0] in roots and ('&mut' in aty or '*mut' in aty):
+                    if a.place is not None and a.place[0] in roots and ('&mut' in aty or '*mut' in aty or is_entry(aty)):
                         hit |= roots[a.place[0]]
                 if hit:
                     out.append((b.idx, 'term', 'call %s' % (cnorm(t) or t.cmethod), hit))
